@@ -26,17 +26,19 @@ VALUES = {
     'nested': lambda: [[1, 2], 'ab'],
     'np2d': lambda: np.array([[1, 2], [3, 4], [5, 6]]),          # a 2-D array: its values are its rows
     'np0d': lambda: np.array(5),                                 # a 0-d array cannot be iterated: a single value
+    'npdt': lambda: np.array(['2021-03-04T05:06:07.000000008', '2021-03-05'], dtype='datetime64[ns]'),
 }
 EXPANDED = {
     'int': [7], 'str': ['xy'], 'empty': [], 'one': [1], 'two': [1, 2], 'tuple_rep': [1, 1], 'range2': [0, 1],
     'nparr': [1, 2], 'none': [None], 'strs': ['p', 'qq'], 'nested': [[1, 2], 'ab'], 'np2d': [[1, 2], [3, 4], [5, 6]], 'np0d': [5],
+    'npdt': ['dt:2021-03-04T05:06:07.000000008', 'dt:2021-03-05T00:00:00.000000000'],
 }
-NAMES = ['a', 'b', 'c']
+NAMES = ['pa', 'pb', 'pc']
 STARTS = {
     'empty': None,
     'empty_dict': {},
-    'dict_ab': {'a': 'two', 'b': 'str'},
-    'dict_ba': {'b': 'tuple_rep', 'a': 'range2'},
+    'dict_ab': {'pa': 'two', 'pb': 'str'},
+    'dict_ba': {'pb': 'tuple_rep', 'pa': 'range2'},
     # names that mean something elsewhere in the library (keys grid_search adds to its results, bookkeeping words)
     'dict_special': {'score': 'two', 'records': 'one', 'index': 'str'},
 }
@@ -71,6 +73,8 @@ def product(decl):
 
 
 def _py(v):
+    if isinstance(v, np.datetime64):
+        return 'dt:' + str(v.astype('datetime64[ns]'))      # a timestamp stays a timestamp (not its integer count)
     if isinstance(v, np.generic):
         return v.item()
     if isinstance(v, np.ndarray):
@@ -121,6 +125,10 @@ class Harness:
         return ops
 
     def apply(self, w, op):
+        if op[0] in ('add', 'remove') and isinstance(op[1], str):
+            # every call passes its OWN string object (equal to, never identical with, the one used before): names
+            # computed at run time (f-strings, joins) are not the interned literals of the source
+            op = [op[0], (op[1] + '_')[:-1]] + list(op[2:])
         names = [n for n, _ in w.decl]
         if op[0] == 'build':
             # building is an operation of its own: whatever build() remembers must not show in later builds
@@ -203,6 +211,13 @@ class Harness:
         if not isinstance(got, list):
             raise Violation(f'{what}: not a list', observed=repr(got))
         norm = [{k: _py(v) for k, v in d.items()} for d in got]
+        kinds = dict(w.decl)
+        for d in got:
+            for k, v in d.items():
+                if kinds.get(k) == 'np2d' and not isinstance(v, np.ndarray):
+                    # the values of a 2-D array are its rows: each combination carries a row, not a re-made list
+                    raise Violation(f'{what} of declaration {w.decl}: the value of {k} is a {type(v).__name__}, the '
+                                    f'declared values are the rows of a 2-D array', expected='ndarray row', observed=repr(v))
         if norm != exp or any(list(d) != [n for n, _ in w.decl] for d in got):
             raise Violation(f'{what} of declaration {w.decl} differs from the Cartesian product (first-declared '
                             f'slowest, once each)', expected=exp[:12], observed=norm[:12])
@@ -334,10 +349,10 @@ def run(ctx):
                 return
     ctx.leg('churn', note='8 sequences of 120 short-lived lists with 3 / 48 / 64 / 200 values')
     if ctx.small:
-        vals = ['int', 'str', 'empty', 'one', 'two', 'tuple_rep', 'range2', 'nparr', 'none', 'np2d', 'np0d']
+        vals = ['int', 'str', 'empty', 'one', 'two', 'tuple_rep', 'range2', 'nparr', 'none', 'np2d', 'np0d', 'npdt']
         plan = [('empty', vals, 2), ('dict_ab', vals[:5], 2)]
     elif ctx.tier == 'quick':
-        vals = ['int', 'str', 'empty', 'one', 'two', 'tuple_rep', 'range2', 'nparr', 'none', 'np2d', 'np0d']
+        vals = ['int', 'str', 'empty', 'one', 'two', 'tuple_rep', 'range2', 'nparr', 'none', 'np2d', 'np0d', 'npdt']
         plan = [('empty', vals, 3), ('dict_ab', vals[:5], 2), ('empty_dict', vals[:3], 1), ('dict_ba', vals[3:8], 2),
                 ('dict_special', vals[:5], 2)]
     else:
